@@ -31,7 +31,8 @@ META = {
 }
 
 SHAPES = ["sparse_block", "sparse_block", "block_cyclic", "block_cyclic", "block_cyclic", "near_unanimous",
-          "near_unanimous_incomplete", "incomplete", "cyclic_incomplete", "complete", "identical"]
+          "near_unanimous_incomplete", "incomplete", "cyclic_incomplete", "complete", "identical", "cyclic_ties",
+          "mixture"]
 AUX = ["default", "kwik", "copeland", "bioco"]
 BOUNDS = [0, 1, 2, 3, 80]
 
@@ -135,8 +136,12 @@ def check_grid(case, ctx):
             return alg.compute_consensus_rankings(d, s, case["at_most_one"])
 
     st_, val = lib.call(run, allowed=configs.REFUSALS)
-    ctx.stats.case(case, nt, labs + ["aux:" + case["aux"], "bound:%d" % case["bound"], "env:" + case["env"],
-                                     "status:" + st_, "aux_called" if rec.calls else "aux_not_called"])
+    comps = oracle.graph_components(inst)
+    hard_sizes = [len(c) for c in comps if len(c) >= 2 and not oracle.can_be_all_tied(inst, c)]
+    mixed = any(x > case["bound"] for x in hard_sizes) and any(x <= case["bound"] for x in hard_sizes)
+    ctx.stats.case(case, nt or mixed, labs + ["aux:" + case["aux"], "bound:%d" % case["bound"], "env:" + case["env"],
+                                              "status:" + st_, "aux_called" if rec.calls else "aux_not_called",
+                                              "mixed_delegation" if mixed else "not_mixed"])
     if st_ == "exc":
         return
     models = well_formed(val, rankings, case["at_most_one"], "ParCons")
@@ -166,6 +171,37 @@ def check_grid(case, ctx):
                             % (sub_d.nb_elements, case["bound"]))
 
 
+@st.composite
+def two_hard_cases(draw, tier):
+    """several Condorcet blocks in a common order (components of 3-5 elements that cannot be all tied) and an exact
+    bound between the block sizes: some components are delegated and others solved exactly, in either order"""
+    scheme = draw(st.one_of(gen.tie_averse_schemes(), gen.tie_averse_schemes(), gen.preset_multiples(["unifying",
+                            "pseudodistance", "extended"])))
+    sizes = draw(st.sampled_from([[4, 3], [3, 4], [4, 3, 3], [3, 4, 3], [3, 3, 4], [5, 3], [3, 5], [4, 4], [3, 3]]))
+    kind, names = draw(gen.element_names(sum(sizes), ("dense", "mult8", "str")))
+    blocks, pos = [], 0
+    for sz in sizes:
+        blocks.append(names[pos:pos + sz])
+        pos += sz
+    m = draw(st.sampled_from([3, 4, 5]))
+    rankings = []
+    for k in range(m):
+        r = []
+        for blk in blocks:
+            if draw(st.integers(0, 7)) == 0:
+                continue            # this ranking misses the whole component
+            sh = k % len(blk)
+            r.extend([[e] for e in blk[sh:] + blk[:sh]])
+        if draw(st.integers(0, 5)) == 0:
+            r = draw(gen.perturb(r, 1))
+        rankings.append(r)
+    if not any(b for r in rankings for b in r):
+        rankings[0] = [[e] for e in names]
+    return {"scheme": scheme, "dataset": {"rankings": rankings, "shape": "condorcet_blocks", "kind": kind},
+            "env": "absent", "aux": draw(st.sampled_from(AUX)), "bound": draw(st.sampled_from([3, 3, 4])),
+            "rng": draw(st.integers(0, 9999)), "at_most_one": True}
+
+
 def any_cases(tier):
     return alg_cases(tier, shapes=SHAPES, schemes=schemes())
 
@@ -193,4 +229,5 @@ def check_flag_any(case, ctx):
 def subchecks():
     return [HypSub("partition", partition_cases, check_partition, 12000, 120000),
             HypSub("parcons_grid", grid_cases, check_grid, 8000, 80000),
+            HypSub("parcons_mixed_delegation", two_hard_cases, check_grid, 3000, 40000),
             HypSub("flag_any_algorithm", any_cases, check_flag_any, 6000, 60000)]
